@@ -167,6 +167,45 @@ def make_model(rng, family):
         M["always_moving"] = True
         return M
 
+    if family == "welded":
+        # body trees with JOINTLESS (welded) bodies and overlapping geoms in every relation the parent-child collision filter distinguishes:
+        # (link, its welded child), (grand-parent link, body welded to the child link)  -> filtered;
+        # (grand-parent link, jointed grand-child), siblings, geoms of a body welded to the world vs a free body -> collide
+        opt["cone"] = rng.choice([0, 1])
+        cd = 3 if opt["cone"] else rng.choice([1, 3])
+        fr = (rng.uniform(0.5, 1.2), 0.005, 0.0001)
+        e = lambda: rng.uniform(-0.01, 0.01)
+        M["wgeoms"].append(geom(0, [5, 5, 0.1], condim=cd, friction=fr))
+        # a body welded to the world carrying a geom (static), a free ball resting on it
+        w = add_body(-1, [-2 + e(), 0, 0.3])
+        M["bodies"][w]["geoms"].append(geom(2, [0.15], condim=cd, friction=fr))
+        w2 = add_body(w, [0.2, 0, 0.05])                       # welded to a body welded to the world
+        M["bodies"][w2]["geoms"].append(geom(2, [0.1], condim=cd, friction=fr))
+        fb = add_body(-1, [-2 + 0.05, e(), 0.3 + 0.15 + 0.08 - rng.uniform(0.002, 0.01)])
+        add_joint(fb, joint(0))
+        M["bodies"][fb]["geoms"].append(geom(2, [0.08], condim=cd, friction=fr))
+        # G (free) - A (hinge) - B (welded to A, reaches back into G) - C (hinge, reaches into G as well); S sibling of A overlapping A
+        G = add_body(-1, [0, 0, 1.0])
+        add_joint(G, joint(0))
+        M["bodies"][G]["geoms"].append(geom(2, [0.1], condim=cd, friction=fr))
+        A = add_body(G, [0.22 + e(), 0, 0])
+        add_joint(A, joint(3, axis=[0, 1, 0], damping=0.1))
+        M["bodies"][A]["geoms"].append(geom(2, [0.06], condim=cd, friction=fr))
+        B = add_body(A, [-0.09 + e(), e(), 0.05])
+        M["bodies"][B]["geoms"].append(geom(2, [0.05], condim=cd, friction=fr))                      # overlaps G's geom: filtered (weld parent of B is G)
+        if rng.random() < 0.7:
+            B2 = add_body(B, [0.0, 0.03, -0.1 + e()])                                                   # welded to a welded body: same weld body A
+            M["bodies"][B2]["geoms"].append(geom(3, [0.025, 0.04], condim=cd, friction=fr, quat=rquat(rng)))
+        Cc = add_body(B, [-0.12 + e(), 0.12, 0.0])
+        add_joint(Cc, joint(3, axis=[0, 0, 1], damping=0.1))
+        M["bodies"][Cc]["geoms"].append(geom(2, [0.06], condim=cd, friction=fr))                     # jointed grand-child touching G: collides
+        S = add_body(G, [0.2 + e(), -0.1, 0.0])
+        add_joint(S, joint(3, axis=[1, 0, 0], damping=0.1))
+        M["bodies"][S]["geoms"].append(geom(2, [0.05], condim=cd, friction=fr))                      # sibling of A overlapping A: collides
+        M["collide"] = True
+        M["always_moving"] = rng.random() < 0.5
+        return M
+
     if family == "connect_moving":
         # fixed replay of the candidate finding "MJX has no Jdot*v correction for connect / weld rows": a ball-jointed link whose tip is connected
         # to the world, moving
